@@ -69,6 +69,13 @@ class _RequestHandler:
         except json.decoder.JSONDecodeError as e:
             self.logger.debug("JSON error: %s", e)
             response = self.protocol.format_error()
+        except RecursionError:
+            # A document can be nested just shallowly enough to be parsed and still
+            # too deeply to be processed afterwards (e.g. to be rendered for the log).
+            # Like any other request that cannot be handled as JSON, report it
+            # as what it is: a format error.
+            self.logger.debug("Request nested too deeply to be processed")
+            response = self.protocol.format_error()
         except NotImplementedError as e:
             self.logger.critical("Not implemented: %s", e)
         except HSM2ProtocolError as e:
